@@ -7,7 +7,7 @@ from . import nf_common
 
 MANIFEST = {
     "text": "Who-may-consume and must-count rules: raw consumption primitives of the input queue are called only from the reviewed wrapper roles, current_line is written only where a normalised line break is recognised (and by the SIMD scan), every fast-path set contains CR and LF so no run hides a line break, and no peek/discard_char path can drop a line break uncounted; the line is read at every sink call. The SIMD scan's newline tally covers exactly the bytes its index advances over (R09.6, SSE2 and NEON); characters the char-ref code may push back are read uncounted (R09.3); the tree builder forwards the line before anything that can call the sink (R09.5).",
-    "note": "Decides R09.1-R09.6: each consumed line break passes exactly one +1 and the number reaches the sink. Not decided: the sink's use of the number. Round 6: pending-CR flag cleared on every path that saw it, reconsumed character not recounted (R09.7).",
+    "note": "Decides R09.1-R09.6: each consumed line break passes exactly one +1 and the number reaches the sink. Not decided: the sink's use of the number. Round 6: pending-CR flag cleared on every path that saw it, reconsumed character not recounted (R09.7). Round 8: R09.8 = R03.16 (a line is counted exactly when preprocessing answers a line feed).",
     "technique": 'who-may-call over the resolved MIR call graph + rules over flattened transition tables',
 }
 LEVEL = "other"
